@@ -16,6 +16,15 @@ let cfg_of_overrides (ovs : string list) : PoolM.cfg =
 
 let key (s : PoolM.state) : string = Marshal.to_string s [Marshal.No_sharing]
 
+let string_of_label (l : PoolM.label) : string =
+  let i n = string_of_int (int_of_nat n) in
+  match l with
+  | PoolM.EBegin n -> "EBegin " ^ i n | PoolM.ESend k -> "ESend " ^ i k
+  | PoolM.ERun0 p -> "ERun0 " ^ bool_s p | PoolM.ELoad -> "ELoad" | PoolM.EPark -> "EPark" | PoolM.ESpurious -> "ESpurious"
+  | PoolM.EWRun (k, p) -> "EWRun " ^ i k ^ " " ^ bool_s p | PoolM.EWClone k -> "EWClone " ^ i k
+  | PoolM.EWDec k -> "EWDec " ^ i k | PoolM.EWUnpark k -> "EWUnpark " ^ i k | PoolM.EDrop -> "EDrop"
+  | PoolM.EWExit k -> "EWExit " ^ i k
+
 let pool_bfs line =
   let scr_s, ovs = match String.index_opt line ';' with
     | Some i -> String.sub line 0 i, toks (String.trim (String.sub line (i + 1) (String.length line - i - 1)))
@@ -24,17 +33,28 @@ let pool_bfs line =
   let check_pub = not (List.mem "nopub" ovs) in
   let scr = List.map (fun t -> nat_of_int (int_of_string t)) (List.filter (fun t -> t <> "") (toks scr_s)) in
   let s0 = PoolM.init scr in
-  let seen : (string, unit) Hashtbl.t = Hashtbl.create 100000 in
+  (* seen: state key -> (key of the BFS parent, label taken), for witness paths *)
+  let seen : (string, string * string) Hashtbl.t = Hashtbl.create 100000 in
   let q = Queue.create () in
-  Hashtbl.replace seen (key s0) (); Queue.add s0 q;
+  Hashtbl.replace seen (key s0) ("", ""); Queue.add s0 q;
   let trans = ref 0 and fails = ref [] and finals = ref 0 in
-  let fail m = if not (List.mem m !fails) then fails := m :: !fails in
+  let witness = ref None in
+  let path_to k =
+    let rec go k acc = match Hashtbl.find_opt seen k with
+      | Some (pk, l) when l <> "" -> go pk (l :: acc)
+      | _ -> acc in
+    String.concat "; " (go k []) in
+  let cur_key = ref (key s0) in
+  let fail m =
+    if !witness = None then witness := Some (m, path_to !cur_key);
+    if not (List.mem m !fails) then fails := m :: !fails in
   let lex_lt s' s =
     let o' = int_of_nat (PoolM.outer_measure s') and o = int_of_nat (PoolM.outer_measure s) in
     o' < o || (o' = o && int_of_nat (PoolM.inner_measure s') < int_of_nat (PoolM.inner_measure s)) in
   let limit = 3_000_000 in
   while not (Queue.is_empty q) && Hashtbl.length seen < limit do
     let s = Queue.pop q in
+    cur_key := key s;
     if not (PoolM.inv_all cfg s) then
       List.iter (fun i -> fail (Printf.sprintf "inv%d" (int_of_nat i))) (PoolM.inv_failures cfg s);
     let en = PoolM.enabled_labels cfg s in
@@ -56,12 +76,13 @@ let pool_bfs line =
         incr trans;
         if l <> PoolM.ESpurious && not (lex_lt s' s) then fail "measure";
         let k = key s' in
-        if not (Hashtbl.mem seen k) then (Hashtbl.replace seen k (); Queue.add s' q)
+        if not (Hashtbl.mem seen k) then (Hashtbl.replace seen k (!cur_key, string_of_label l); Queue.add s' q)
       | None -> ()) labels
   done;
   Printf.sprintf "states %d transitions %d finals %d %s%s" (Hashtbl.length seen) !trans !finals
     (if !fails = [] then "ok" else "FAIL " ^ String.concat "," (List.sort compare !fails))
-    (if Hashtbl.length seen >= limit then " LIMIT" else "")
+    ((if Hashtbl.length seen >= limit then " LIMIT" else "")
+     ^ (match !witness with Some (m, p) -> " WITNESS " ^ m ^ " after [" ^ p ^ "]" | None -> ""))
 
 
 (* ---- trace replay (correspondence) and the boolean specification on traces ---- *)
@@ -253,8 +274,44 @@ let pool_consts _ =
     (PoolM.is_release c.PoolM.c_dec) (PoolM.is_acquire c.PoolM.c_load) (int_of_nat c.PoolM.c_unpark_old)
     c.PoolM.c_loop c.PoolM.c_nonzero
 
+(* ---- C07 at the public surface: every run owns a pool; after the run it is dropped ---- *)
+
+(* case "runs=test,bench": each run is modelled as one pool executing the broadcasts of the harness's two
+   benchmarks (threads [1,3] and [2,5] -> aux counts 0,2,1,4) and then dropped; the model is run to its final
+   state along enabled labels (the measure guarantees termination) and the workers that have not exited are
+   counted: by C07_workers_exit / C07_reaches_final that is 0. *)
+let pool_leak line =
+  let runs = List.concat_map (fun t ->
+      if String.length t > 5 && String.sub t 0 5 = "runs=" then
+        List.filter (fun x -> x <> "") (String.split_on_char ',' (String.sub t 5 (String.length t - 5)))
+      else []) (toks line) in
+  let cfg = PoolM.code_cfg in
+  let survivors = ref 0 and workers = ref 0 in
+  List.iter (fun _ ->
+    let s = ref (PoolM.init (List.map nat_of_int [0; 2; 1; 4])) in
+    let fuel = ref 100000 in
+    while not (PoolM.final !s) && !fuel > 0 do
+      decr fuel;
+      (match PoolM.enabled_labels cfg !s with
+       | l :: _ -> (match PoolM.step cfg !s l with Some s' -> s := s' | None -> fuel := 0)
+       | [] -> fuel := 0)
+    done;
+    if not (PoolM.final !s) then failwith "model did not reach its final state";
+    workers := max !workers (List.length !s.PoolM.ws);
+    survivors := !survivors + List.length (List.filter (fun w -> w <> PoolM.WExit) !s.PoolM.ws)) runs;
+  Printf.sprintf "survivors=%d runs=%d seen=%d" !survivors (List.length runs) !workers
+
+let pool_leak_sb line =
+  let _, impl = split_sb line in
+  match toks impl with
+  | t :: _ when t = "survivors=0" -> "true"
+  | t :: _ when String.length t > 10 && String.sub t 0 10 = "survivors=" -> "false worker-not-exited-after-the-run " ^ t
+  | _ -> "false " ^ impl
+
 let dispatch mode line =
   match mode with
+  | "c07leak" -> pool_leak line
+  | "c07leak.sb" -> pool_leak_sb line
   | "pool-bfs" -> pool_bfs line
   | "c06" | "c07" | "replay" -> pool_replay line
   | "c06.sb" -> pool_sb c06_clauses line
